@@ -44,9 +44,9 @@ theorem handleReplyStep_noDlv {cs cs' : CtxSt} {id : ReqId} {ok : Bool} {more : 
     (h : handleReplyStep cs id ok = some (cs', more, o)) : noDlv more ∧ cs'.got = cs.got ∧ cs'.alive = cs.alive := by
   unfold handleReplyStep at h
   split at h
-  · simp at h
+  · simp only [Option.some.injEq, Prod.mk.injEq] at h; obtain ⟨rfl, rfl, rfl⟩ := h; exact ⟨noDlv_nil, rfl, rfl⟩
   · split at h
-    · simp at h
+    · simp only [Option.some.injEq, Prod.mk.injEq] at h; obtain ⟨rfl, rfl, rfl⟩ := h; exact ⟨noDlv_nil, rfl, rfl⟩
     · split at h
       · simp only [Option.some.injEq, Prod.mk.injEq] at h
         obtain ⟨rfl, rfl, -⟩ := h
